@@ -478,13 +478,13 @@ def route(R, RID='C05.route'):
 
 
 # ---------------------------------------------------------------------------------------------- track
-def track(R):
+def track(R, RID='C05.track'):
     recv = 'frame_parser.ClientFrameParser'
     # validator field: created once per parser, in __init__ only
     st = stores_in_package(R, '_utf8_validator')
     for (c, stmt, tgt, val) in st:
         ok = c.func.name == '__init__' and c.func.cls is not None and c.func.cls.qual == 'frame_parser.FrameParser'
-        R.ob('C05.track', 'validator created once per parser', ok,
+        R.ob(RID, 'validator created once per parser', ok,
              'the UTF-8 validator is (re)created outside FrameParser.__init__ (state would not survive '
              'fragment/read boundaries)', func=c.func, node=stmt)
     need(st, '_utf8_validator is never assigned')
@@ -514,10 +514,10 @@ def track(R):
                     or ('or(%s)' % ','.join(sorted([T('TEXT'), T('CONTINUATION')])), True) in l
                 if not (fin and data_end):
                     bad.append(sorted(l))
-            R.ob('C05.track', 'validator reset only at end of a text/continuation message', not bad,
+            R.ob(RID, 'validator reset only at end of a text/continuation message', not bad,
                  'validator reset reachable without (FIN and text/continuation frame): %s - a control frame or a '
                  'non-final fragment would reset the validator in mid code point' % (bad[:1],), func=c.func, node=call)
-    R.ob('C05.track', 'validator is reset at end of message', len(sites) >= 1,
+    R.ob(RID, 'validator is reset at end of message', len(sites) >= 1,
          'the parser never resets its validator: the message after an incomplete one starts in a pending state',
          func='frame_parser.FrameParser.on_frame', node=None, construct='validator reset site')
     # _is_text writers
@@ -527,7 +527,7 @@ def track(R):
         if c.func.qual in seen and False:
             continue
         if c.func.name == '__init__':
-            R.ob('C05.track', '_is_text initial value', U(val) == 'False', '_is_text initialised to %s' % U(val),
+            R.ob(RID, '_is_text initial value', U(val) == 'False', '_is_text initialised to %s' % U(val),
                  func=c.func, node=stmt)
             continue
         g = R.cfg(c.func.qual, recv if c.func.cls and R.prog.is_subclass(recv, c.func.cls.qual) else None)
@@ -545,7 +545,7 @@ def track(R):
         pcs = path_conditions(R, g, rd, start, n)
         if U(val) == 'True':
             bad = [sorted(l) for l in pcs if (T('TEXT'), True) not in l]
-            R.ob('C05.track', '_is_text set only on a TEXT frame', not bad,
+            R.ob(RID, '_is_text set only on a TEXT frame', not bad,
                  '_is_text set without a TEXT-frame test: %s' % (bad[:1],), func=c.func, node=stmt)
         elif U(val) == 'False':
             bad = []
@@ -555,17 +555,17 @@ def track(R):
                                                                           ('TEXT', 'BINARY', 'CONTINUATION'))
                 if not (fin and noctl):
                     bad.append(sorted(l))
-            R.ob('C05.track', '_is_text cleared only at the end of a data message', not bad,
+            R.ob(RID, '_is_text cleared only at the end of a data message', not bad,
                  '_is_text cleared without (FIN and not a control frame): %s - a Ping/Pong between text fragments '
                  'switches the rest of the message to the non-validating reader' % (bad[:1],), func=c.func, node=stmt)
         else:
-            R.ob('C05.track', '_is_text value', False, '_is_text assigned %s' % U(val), func=c.func, node=stmt)
+            R.ob(RID, '_is_text value', False, '_is_text assigned %s' % U(val), func=c.func, node=stmt)
         seen.add(c.func.qual)
     vals = [U(v) for (_, _, _, v) in st]
-    R.ob('C05.track', '_is_text is set somewhere', 'True' in vals, '_is_text is never set: continuations of text '
+    R.ob(RID, '_is_text is set somewhere', 'True' in vals, '_is_text is never set: continuations of text '
          'messages are never validated incrementally', func='frame_parser.FrameParser.parse', node=None,
          construct='_is_text = True')
-    R.ob('C05.track', '_is_text is cleared somewhere', vals.count('False') >= 2, '_is_text is never cleared: '
+    R.ob(RID, '_is_text is cleared somewhere', vals.count('False') >= 2, '_is_text is never cleared: '
          'continuations of binary messages would be validated as text', func='frame_parser.FrameParser.on_frame',
          node=None, construct='_is_text = False')
     # on_frame runs for every frame before it is yielded
@@ -583,7 +583,7 @@ def track(R):
         if cons:
             ok = ok and all_paths_pass(g, normal_succs(cons[0]), [n for (n, _) in onf], [y],
                                        skip_edge=lambda a, b, l: l.startswith('exc:'))
-        R.ob('C05.track', 'on_frame bookkeeping runs for every frame', ok,
+        R.ob(RID, 'on_frame bookkeeping runs for every frame', ok,
              'a frame can be yielded without on_frame() having run (e.g. empty frames): end-of-message '
              'bookkeeping is skipped', func='frame_parser.FrameParser.parse', node=y.stmt)
 
